@@ -45,6 +45,7 @@ from .vtime import CLOCK
 
 SENT = object()
 KEYNAMES = "abcdefghijklmnop"
+SECOND_PREFIX = "b:"
 
 
 def kname(i: int) -> str:
@@ -175,6 +176,12 @@ CONFIGS = {
     "facade_purge": dict(facade=True, purge=8, url="vmem://?size={size}&check_interval=1"),
     "facade_secret": dict(facade=True, purge=0, url="vmem://?size={size}&check_interval=0&secret=s3cr3t&digestmod=sha1"),
     "facade_pickle": dict(facade=True, purge=0, url="vmem://?size={size}&check_interval=0&pickle_type=default"),
+    # two backends behind one facade, routed by key prefix (`second`: url of the backend that owns the keys "b:..."; odd key
+    # numbers live there): multi-key commands whose keys interleave the backends are split per backend by the facade and
+    # have to come back position by position.  The model is unchanged - one ideal map; the harness only names the keys.
+    "facade2": dict(facade=True, purge=0, url="vmem://?size={size}&check_interval=0", second="vmem://?size={size}&check_interval=0"),
+    "facade2_mixed": dict(facade=True, purge=0, url="vmem://?size={size}&check_interval=0",
+                          second="vmem://?size={size}&check_interval=0&secret=s3cr3t&digestmod=sha1"),
     # ticks of 2**-20 s (see "Clock resolution" above); purge interval 1/1024 s = 1024 ticks
     "raw_fine": dict(facade=False, purge=0, url=None, res=FINE),
     "raw_purge_fine": dict(facade=False, purge=1024, url=None, res=FINE),
@@ -301,6 +308,7 @@ class Runner:
         self.size = size
         self.stats: dict[str, int] = {}
         self.backend = None
+        self.second = None                  # the backend behind the prefix "b:" (two-backend configurations)
         self.main_task = None
         self.recs: list[dict] = []
         self.bg: list[dict] = []            # background activity not yet spliced in: groups {t, ops, snap}
@@ -338,13 +346,13 @@ class Runner:
         for the interesting-state counters)"""
         op = w[0]
         if op in ("set", "incr", "expire"):
-            keys = [kname(int(w[1]))]
+            keys = [self._k(int(w[1]))]
         elif op == "setmany":
-            keys = [kname(int(kv.split("=")[0])) for kv in w[2:]]
+            keys = [self._k(int(kv.split("=")[0])) for kv in w[2:]]
         else:
             return
         for k in keys:
-            ent = self.backend.store.get(k)
+            ent = self._ent(k)
             if ent and ent[0] is not None and ent[0] - CLOCK.t >= 3600:
                 if self._long.get(k, (None,))[0] != ent[0]:
                     self._long[k] = (ent[0], CLOCK.t)
@@ -382,6 +390,8 @@ class Runner:
             cache = Cache()
             backend = cache.setup(self.cfg["url"].format(size=self.size))
             self.backend = backend
+            if self.cfg.get("second"):
+                self.second = cache.setup(self.cfg["second"].format(size=self.size), prefix=SECOND_PREFIX)
             _ACTIVE = self
             await cache.init()
             self.api = cache
@@ -395,73 +405,90 @@ class Runner:
             await asyncio.sleep(0)          # the purge task starts (its first tick finds an empty store)
             self._take_groups()
 
+    def _k(self, i: int) -> str:
+        """the key the application uses for model key `i`: with two backends the odd ones belong to the second"""
+        return SECOND_PREFIX + kname(i) if self.second is not None and i % 2 else kname(i)
+
+    def _ent(self, key: str):
+        """the physical entry of a key, in the store of the backend that owns it"""
+        b = self.second if self.second is not None and key.startswith(SECOND_PREFIX) else self.backend
+        return b.store.get(key)
+
     def _expired_unpurged(self, key: str) -> bool:
-        ent = self.backend.store.get(key)
+        ent = self._ent(key)
         return bool(ent and ent[0] is not None and ent[0] <= CLOCK.t)
 
     def _at_deadline(self, key: str) -> bool:
-        ent = self.backend.store.get(key)
+        ent = self._ent(key)
         return bool(ent and ent[0] is not None and ent[0] == CLOCK.t)
 
     async def _exec(self, w: list[str]) -> str:
         api = self.api
         op = w[0]
         if op in ("set", "get", "exists", "incr", "delete", "expire", "getexpire"):
-            k = kname(int(w[1]))
+            k = self._k(int(w[1]))
             if self._expired_unpurged(k):
                 self._bump(f"{op}{'_' + w[4] if op == 'set' else ''}_on_expired_unpurged")
             if self._at_deadline(k):
                 self._bump(f"{op}_exactly_at_deadline")
-            ent = self.backend.store.get(k)
+            ent = self._ent(k)
             if ent and ent[0] is not None and 0 < ent[0] - CLOCK.t < 0.001:
                 self._bump("command_within_the_last_millisecond_before_a_deadline")
             if k in self._long and self._expired_unpurged(k):
                 self._bump("command_at_or_after_a_deadline_of_hours_or_days")
-            elif k in self._long and self.backend.store.get(k) and CLOCK.t - self._long[k][1] >= 3600:
+            elif k in self._long and self._ent(k) and CLOCK.t - self._long[k][1] >= 3600:
                 self._bump("command_an_hour_or_more_into_a_long_ttl_before_its_deadline")
+        if self.second is not None and op in ("getmany", "setmany", "delmany"):
+            ids = [int(x.split("=")[0]) % 2 for x in (w[2:] if op == "setmany" else w[1:])]
+            runs = sum(1 for a, b in zip(ids, ids[1:]) if a != b) + 1 if ids else 0
+            if len(set(ids)) == 2:
+                self._bump(f"{op}_over_both_backends")
+            if runs > 2 or (runs == 2 and ids[0] == 1):
+                # not already grouped the way the facade groups them (first backend's keys first)
+                self._bump(f"{op}_with_keys_interleaving_the_backends")
         if op == "set":
-            k, v, ttl, c = kname(int(w[1])), val_of(w[2]), self._ttl(w[3]), {"a": None, "nx": False, "xx": True}[w[4]]
+            k, v, ttl, c = self._k(int(w[1])), val_of(w[2]), self._ttl(w[3]), {"a": None, "nx": False, "xx": True}[w[4]]
             r = await api.set(k, v, expire=ttl, exist=c)
             return "T" if r is True else "F" if r is False else f"?{r!r}"
         if op == "setmany":
             pairs = {}
             for kv in w[2:]:
                 k, v = kv.split("=")
-                pairs[kname(int(k))] = val_of(v)
+                pairs[self._k(int(k))] = val_of(v)
             r = await api.set_many(pairs, expire=self._ttl(w[1]))
             return "U" if r is None else f"?{r!r}"
         if op == "get":
-            out = show_val(await api.get(kname(int(w[1])), default=SENT))
+            out = show_val(await api.get(self._k(int(w[1])), default=SENT))
             if out.startswith("t:") and int(out[2:]) >= CBASE:
                 self._bump("get_returned_a_container_value")
             return "v=" + out
         if op == "getmany":
-            r = await api.get_many(*[kname(int(x)) for x in w[1:]], default=SENT)
+            r = await api.get_many(*[self._k(int(x)) for x in w[1:]], default=SENT)
             outs = [show_val(v) for v in r]
             if any(o.startswith("t:") and int(o[2:]) >= CBASE for o in outs):
                 self._bump("getmany_returned_a_container_value")
             return "vs=" + ",".join(outs)
         if op == "exists":
-            r = await api.exists(kname(int(w[1])))
+            r = await api.exists(self._k(int(w[1])))
             return "T" if r is True else "F" if r is False else f"?{r!r}"
         if op == "incr":
             try:
-                r = await api.incr(kname(int(w[1])), int(w[2]), expire=self._ttl(w[3]))
+                r = await api.incr(self._k(int(w[1])), int(w[2]), expire=self._ttl(w[3]))
             except (ValueError, TypeError):
                 return "E"
             return f"n={r}" if type(r) is int else f"?{r!r}"
         if op == "delete":
-            r = await api.delete(kname(int(w[1])))
+            r = await api.delete(self._k(int(w[1])))
             return "T" if r is True else "F" if r is False else f"?{r!r}"
         if op == "delmany":
-            r = await api.delete_many(*[kname(int(x)) for x in w[1:]])
+            r = await api.delete_many(*[self._k(int(x)) for x in w[1:]])
             return "U" if r is None else f"?{r!r}"
         if op == "expire":
             t = self._ttl(w[2])
-            r = await api.expire(kname(int(w[1])), t if t is not None else 0)
+            r = await api.expire(self._k(int(w[1])), t if t is not None else 0)
             return "U"
         if op == "getexpire":
-            r = await api.get_expire(kname(int(w[1])))
+            r = await api.get_expire(self._k(int(w[1])))
             return f"n={r}" if type(r) is int else f"?{r!r}"
         if op == "clear":
             await api.clear()
@@ -601,7 +628,7 @@ FINE_ADVS = [0, 1, 1, 2, 500, 1000, 1023, 1024, 1048, 1049, 2000, 4096, FINE // 
 
 def gen_history(rng, nkeys: int, maxlen: int, weights: dict | None = None, advs=None, ttls=None,
                 forms=None, bigttls=None, maxadv: int | None = None, vals=None, chase: bool | None = None,
-                res: int = 8) -> list[str]:
+                res: int = 8, manykeys: int = 4) -> list[str]:
     """`forms`: spell every TTL in one of these forms (facade configurations only); `bigttls`: extra alphabet of long
     TTLs - then half of the time advances aim at a pending deadline (8 ticks / 1 tick before, exactly at, 1 / 8 ticks
     after it; the generator keeps its own account of `now` and of the deadlines it asked for), never by more than
@@ -661,7 +688,7 @@ def gen_history(rng, nkeys: int, maxlen: int, weights: dict | None = None, advs=
         elif op == "get":
             ops.append(f"get {k()}")
         elif op == "getmany":
-            ops.append("getmany " + " ".join(k() for _ in range(rng.randint(1, 4))))
+            ops.append("getmany " + " ".join(k() for _ in range(rng.randint(1, manykeys))))
         elif op == "exists":
             ops.append(f"exists {k()}")
         elif op == "incr":
